@@ -13,6 +13,49 @@ TB = ("Trusted: Lean 4.33 kernel; axioms propext/Classical.choice/Quot.sound onl
       "gcc/glibc/ASan; the C harness's abstraction functions and the script generators.")
 
 CLAIMED = {
+    "C09": {
+        "design_ref": "DESIGN.md 4/C09",
+        "text": "Lean 4 theorems over a vector model with explicit 64-bit wrap-around (set_capacity requests ((sz+1) mod 2^64 * esz) mod "
+                "2^64 bytes exactly as the C expression, with the overflow guard of the repaired code and glibc's realloc(p,0) "
+                "behaviour; realloc answers are parameters; ctor/dtor and realloc events logged): Inv (count <= cap, block bytes = "
+                "(cap+1)*esz without wrap) for every history, every requested size < 2^64 and every allocator answer (run_inv over two "
+                "vectors + heap ledger), at succeeds iff index < count and then stays inside the block (at_ok_iff, vget_vset_safe), "
+                "contents preserved across reallocation, reserve failure is a no-op, resize failure aborts (resize_abort_iff), "
+                "constructor/destructor exactly once per slot entering/leaving [0,count), sort/reverse use only the scratch slot. "
+                "Tied to /repo by differential execution (boundary values incl. SIZE_MAX neighbours x element sizes 1-64 x with/"
+                "without xtors, closure over small sizes, random histories, allocation plans) comparing size, capacity, contents, the "
+                "realloc request log and per-slot xtor events under ASan; storage-ledger oracle.",
+        "note": TB + " The harness decides allocation outcomes itself (plan string; every request above 64 KiB fails) and the model driver applies the same rule.",
+        "technique": "Lean 4 proof (invariant over operation lists with explicit 64-bit arithmetic, all allocator answers) + model/implementation correspondence check",
+    },
+    "C10": {
+        "design_ref": "DESIGN.md 4/C10",
+        "text": "Lean 4 theorems over the string layer (generic in the code-unit width) on top of the vector model: every edit refines "
+                "a reference list of code units (run_refines over two strings: set, insert_ch/str_n, append, erase, substr, resize, "
+                "swap, clear), NUL termination invariant (str_nul_terminated), a position beyond the end aborts iff documented "
+                "(pos_abort_iff, insert_abort_iff), counts are truncated for every n < 2^64 incl. 2^64-1 (count_truncated), growth that "
+                "cannot be satisfied aborts without writing (growth_abort_no_write), find_ch/find_str/compare equal a libc model whose "
+                "strchr/strstr/strcmp specifications are proved. Tied to /repo by differential execution on narrow and wide strings "
+                "(closure over short strings incl. embedded NUL, positions/counts from the boundary set, random histories) comparing "
+                "size, capacity, every unit incl. the terminator, results and abort/segv; libc itself is the reference for find/compare "
+                "in the harness; reference-string oracle.",
+        "note": TB + " reserve on a string that holds nothing followed by str() returns storage without a terminator (reserve is outside C10's operation list; generators keep observers away from that state; recorded as an observation in DESIGN section 5).",
+        "technique": "Lean 4 proof (refinement to a reference sequence over operation lists, explicit 64-bit arithmetic) + model/implementation correspondence check",
+    },
+    "C16": {
+        "design_ref": "DESIGN.md 4/C16",
+        "text": "The allocation-failure theorems of the areas, all of which quantify over EVERY allocator answer because the allocator is "
+                "a parameter of the models: map insert failure returns -1 with the state unchanged (Tree.mapInsert_fail, run_refines "
+                "with the live-block ledger), hash resize/shrink failure is a no-op (Hash.resize_exact: not satisfiable -> t' = t), "
+                "vector/string reserve and shrink failure no-op and growth failure abort (Vec.reserve_fail_noop, resize_fail_abort, "
+                "growth_abort_no_write), smart-pointer and array allocation failure leaves the object empty, nothing leaked or freed "
+                "twice (Mem.alloc_fail_empty, no_leak, free_at_most_once, step_never_asan). Tied to /repo by fault enumeration on the "
+                "real code and the models: per script all allocations succeed, every single one fails, every suffix fails, every pair "
+                "fails, every triple for scripts with <= 6 allocations, each followed by continued use and the ledger audit of the "
+                "area's oracle.",
+        "note": TB,
+        "technique": "Lean 4 proof (theorems universally quantified over allocator answers) + fault enumeration with model/implementation correspondence",
+    },
     "C05": {
         "design_ref": "DESIGN.md 4/C05",
         "text": "Lean 4 theorems over a model of memory.c's unique/shared/weak pointers (object store with self-address stamps, "
